@@ -1,6 +1,7 @@
 package props
 
 import (
+	"bytes"
 	"fmt"
 	"io"
 	"strings"
@@ -9,8 +10,11 @@ import (
 	"github.com/ipfs/go-cid"
 	"github.com/ipfs/go-unixfsnode"
 	"github.com/ipfs/go-unixfsnode/data/builder"
+	"github.com/ipfs/go-unixfsnode/file"
+	dagpb "github.com/ipld/go-codec-dagpb"
 	"github.com/ipld/go-ipld-prime"
 	"github.com/ipld/go-ipld-prime/datamodel"
+	"github.com/ipld/go-ipld-prime/node/basicnode"
 	"github.com/ipld/go-ipld-prime/traversal"
 	"github.com/ipld/go-ipld-prime/traversal/selector"
 	"github.com/multiformats/go-multihash"
@@ -130,6 +134,34 @@ func TestC20(t *testing.T) {
 					_, err := ls.KnownReifiers["unixfs-preload"](ipld.LinkContext{Ctx: bg}, raw, ls)
 					return err
 				}},
+			}
+			if f.Root.Prefix().Codec == cid.DagProtobuf {
+				// the file constructors handed the root decoded generically (loaded without a prototype
+				// chooser) instead of as a typed dag-pb node: the same file, the same walk
+				if blk, ok := st.Get(f.Root); ok {
+					nb := basicnode.Prototype.Any.NewBuilder()
+					if dagpb.Decode(nb, bytes.NewReader(blk)) == nil {
+						generic := nb.Build()
+						ops = append(ops, struct {
+							name string
+							run  func() error
+						}{"AsBytes(generic-root)", func() error {
+							n, err := file.NewUnixFSFile(bg, generic, ls)
+							if err != nil {
+								return err
+							}
+							_, err = n.AsBytes()
+							return err
+						}}, struct {
+							name string
+							run  func() error
+						}{"preload(generic-root)", func() error {
+							_, err := file.NewUnixFSFileWithPreload(bg, generic, ls)
+							return err
+						}})
+						c.Count("generic_root_forms", 2)
+					}
+				}
 			}
 			for _, op := range ops {
 				var prev []string
